@@ -30,7 +30,10 @@ CONSTANTS Seeds,        \* set of seed configurations
 VARIABLES cfg, last, steps, base
 vars == <<cfg, last, steps, base>>
 
-NoSweep == [on |-> FALSE, vname |-> "", vals |-> <<>>, ints |-> FALSE, ctx2 |-> FALSE, vorder |-> FALSE, mode |-> "", bc |-> FALSE, expr |-> <<>>, coll |-> "", el |-> ""]
+\* rng: the sweep has one more variable r given as a RANGE [lo, hi, steps, endpoint, scale]; expl: the author wrote the
+\* defaults (endpoint: true, scale: linear) out -- a spelling, not a meaning
+NoRng == [on |-> FALSE, lo |-> 0, hi |-> 0, steps |-> 0, endp |-> TRUE, log |-> FALSE, expl |-> FALSE]
+NoSweep == [on |-> FALSE, vname |-> "", vals |-> <<>>, ints |-> FALSE, ctx2 |-> FALSE, vorder |-> FALSE, mode |-> "", bc |-> FALSE, expr |-> <<>>, coll |-> "", el |-> "", rng |-> NoRng]
 Spellings == 0..3
 
 (******************************* meaning **********************************)
@@ -56,7 +59,7 @@ ExprNorm(e) == IF IsWrap(e) THEN <<e[1], ExprNorm(e[2])>>
 
 \* (an entry's `al` field -- written as a YAML alias of entry al of the same node -- is not part of the meaning)
 EntryMeaning(en) == [k |-> en.k, v |-> en.v, str |-> en.str, sub |-> {[k |-> s.k, v |-> s.v] : s \in {en.sub[i] : i \in 1..Len(en.sub)}}]
-SweepMeaning(sw) == IF ~sw.on THEN sw ELSE [sw EXCEPT !.expr = ExprNorm(sw.expr), !.vorder = FALSE]
+SweepMeaning(sw) == IF ~sw.on THEN sw ELSE [sw EXCEPT !.expr = ExprNorm(sw.expr), !.vorder = FALSE, !.rng.expl = FALSE]
 \* (pempty -- how an empty parameters block is written -- is not part of the meaning)
 NodeMeaning(n) == [proc |-> n.proc,
                    params |-> {EntryMeaning(n.ps[i]) : i \in 1..Len(n.ps)},
@@ -95,6 +98,8 @@ CommuteUnder == \E i \in 1..Len(cfg) :
                   /\ cfg[i].sweep.on /\ IsWrap(cfg[i].sweep.expr) /\ Len(cfg[i].sweep.expr[2]) = 3
                   /\ cfg[i].sweep.expr[2][1] \in {"+", "*"} /\ cfg[i].sweep.expr[2][2] # cfg[i].sweep.expr[2][3]
                   /\ SetNode(i, [cfg[i] EXCEPT !.sweep.expr[2] = <<@[1], @[3], @[2]>>]) /\ last' = "CommuteUnder"
+ExplicitDefault == \E i \in 1..Len(cfg) : cfg[i].sweep.on /\ cfg[i].sweep.rng.on
+                  /\ SetNode(i, [cfg[i] EXCEPT !.sweep.rng.expl = ~@]) /\ last' = "ExplicitDefault"
 PermuteVars == \E i \in 1..Len(cfg) : cfg[i].sweep.on /\ cfg[i].sweep.ctx2
                   /\ SetNode(i, [cfg[i] EXCEPT !.sweep.vorder = ~@]) /\ last' = "PermuteVars"
 \* a node without parameters may leave the block out, write `parameters:` (YAML null) or `parameters: {}`
@@ -110,7 +115,7 @@ AliasSub == \E i \in 1..Len(cfg) : \E a, b \in 1..Len(cfg[i].ps) :
                /\ a < b /\ ~Involved(i) /\ cfg[i].ps[a].sub # <<>> /\ cfg[i].ps[b].sub # <<>>
                /\ SubSet(cfg[i].ps[a]) = SubSet(cfg[i].ps[b])
                /\ cfg' = [cfg EXCEPT ![i].ps[b].al = a] /\ last' = "AliasSub"
-Cosmetic == PermuteKeys \/ PermuteSubKeys \/ Respell \/ Requote \/ Reflow \/ CommuteExpr \/ CommuteInner \/ CommuteUnder \/ PermuteVars \/ Alias \/ AliasSub \/ EmptyParams
+Cosmetic == PermuteKeys \/ PermuteSubKeys \/ Respell \/ Requote \/ Reflow \/ CommuteExpr \/ CommuteInner \/ CommuteUnder \/ PermuteVars \/ Alias \/ AliasSub \/ EmptyParams \/ ExplicitDefault
 
 (******************************* semantic actions *************************)
 OtherProc(p) == IF p = "FloatMultiplyOperation" THEN "VNestedOperation" ELSE "FloatMultiplyOperation"
@@ -144,12 +149,18 @@ SweepField(f) == \E i \in 1..Len(cfg) : cfg[i].sweep.on /\
       [] f = "opinner" -> /\ Len(cfg[i].sweep.expr) = 3 /\ Len(cfg[i].sweep.expr[2]) = 3 /\ cfg[i].sweep.expr[2][1] \in {"+", "*"}
                           /\ SetNode(i, [cfg[i] EXCEPT !.sweep.expr[2][1] = IF @ = "+" THEN "*" ELSE "+"])
       [] f = "vname" -> SetNode(i, [cfg[i] EXCEPT !.sweep.vname = IF @ = "t" THEN "expr" ELSE "t"])
+      [] f = "rhi"   -> cfg[i].sweep.rng.on /\ SetNode(i, [cfg[i] EXCEPT !.sweep.rng.hi = @ + 1])      \* the LAST digit of a 7-digit end point
+      [] f = "rlo"   -> cfg[i].sweep.rng.on /\ SetNode(i, [cfg[i] EXCEPT !.sweep.rng.lo = @ + 1])
+      [] f = "rsteps" -> cfg[i].sweep.rng.on /\ SetNode(i, [cfg[i] EXCEPT !.sweep.rng.steps = @ + 1])
+      [] f = "rendp" -> cfg[i].sweep.rng.on /\ SetNode(i, [cfg[i] EXCEPT !.sweep.rng.endp = ~@])
+      [] f = "rlog"  -> cfg[i].sweep.rng.on /\ SetNode(i, [cfg[i] EXCEPT !.sweep.rng.log = ~@])
       [] f = "el"    -> LET e2 == IF cfg[i].proc = "FloatValueDataSource" THEN "FloatValueDataSourceWithDefault" ELSE "FloatValueDataSource"
                         IN SetNode(i, [cfg[i] EXCEPT !.sweep.el = e2, !.proc = e2])     \* the wrapped processor
 SweepName(f) == CASE f = "vals" -> "SetSweep_vals" [] f = "val1" -> "SetSweep_val1" [] f = "mode" -> "SetSweep_mode"
                    [] f = "bc" -> "SetSweep_bc" [] f = "const" -> "SetSweep_const" [] f = "noncomm" -> "SetSweep_noncomm"
                    [] f = "el" -> "SetSweep_el" [] f = "oproot" -> "SetSweep_oproot" [] f = "inttype" -> "SetSweep_inttype" [] f = "opinner" -> "SetSweep_opinner" [] f = "vname" -> "SetSweep_vname" [] f = "valmid" -> "SetSweep_valmid"
-SetSweep == \E f \in {"vals", "val1", "mode", "bc", "const", "noncomm", "el", "oproot", "opinner", "inttype", "vname", "valmid"} : SweepField(f) /\ last' = SweepName(f)
+                   [] f = "rhi" -> "SetSweep_rhi" [] f = "rlo" -> "SetSweep_rlo" [] f = "rsteps" -> "SetSweep_rsteps" [] f = "rendp" -> "SetSweep_rendp" [] f = "rlog" -> "SetSweep_rlog"
+SetSweep == \E f \in {"vals", "val1", "mode", "bc", "const", "noncomm", "el", "oproot", "opinner", "inttype", "vname", "valmid", "rhi", "rlo", "rsteps", "rendp", "rlog"} : SweepField(f) /\ last' = SweepName(f)
 Semantic == SetProcessor \/ SetParam \/ SetSubParam \/ DropNode \/ DupNode \/ SwapNodes \/ SetSweep
 
 Init == cfg \in Seeds /\ last = "" /\ steps = 0 /\ base = cfg
@@ -157,7 +168,7 @@ Next == /\ steps < MaxSteps /\ steps' = steps + 1 /\ base' = cfg
         /\ (Cosmetic \/ Semantic)
 Spec == Init /\ [][Next]_vars
 
-CosmeticNames == {"PermuteKeys", "PermuteSubKeys", "Respell", "Requote", "Reflow", "CommuteExpr", "CommuteInner", "CommuteUnder", "PermuteVars", "Alias", "AliasSub", "EmptyParams"}
+CosmeticNames == {"PermuteKeys", "PermuteSubKeys", "Respell", "Requote", "Reflow", "CommuteExpr", "CommuteInner", "CommuteUnder", "PermuteVars", "Alias", "AliasSub", "EmptyParams", "ExplicitDefault"}
 CosmeticKeepsMeaning == (last \in CosmeticNames) => Meaning(cfg) = Meaning(base)
 SemanticChangesMeaning == (last # "" /\ last \notin CosmeticNames) => Meaning(cfg) # Meaning(base)
 
